@@ -59,6 +59,13 @@ Proof.
   split; [apply jt_eqb_eq; assumption|assumption].
 Qed.
 
+(* the miter threshold every vertex of a call is tested against is derived from the miter limit in force at that
+   Execute (ExecuteInternal recomputes temp_lim_ from miter_limit_; the harness supplies the limit through the
+   constructor and through the MiterLimit setter alike and compares temp_lim_ after the call) *)
+Theorem ctx_temp_lim acos_f sin_f cos_f miter_limit arc_tolerance e :
+  c_tlim (ctx_of acos_f sin_f cos_f miter_limit arc_tolerance e) = temp_lim miter_limit.
+Proof. unfold ctx_of. destruct (pe_steps_for e); [destruct (step_consts _ _ _ _ _) as [[? ?] ?]|]; reflexivity. Qed.
+
 (* ------------------------------------------------------------------ index schedule *)
 Lemma forallb_flat_map {A B} (p : B -> bool) (f : A -> list B) l :
   forallb p (flat_map f l) = forallb (fun x => forallb p (f x)) l.
